@@ -60,10 +60,12 @@ def make_h(tier):
         dir_names.append("mylib.egg-info")
         dir_names.append("keep.py")        # a directory whose name is also the name of a regular file elsewhere (pkg/keep.py)
         file_names = ["a.py", "b.ts"] + ["m" + e + ".py" for e in (exts if not quick else exts[:3])] + \
-                     ["builder.py", "build.py", "c" + exts[0]]
+                     ["builder.py", "build.py", "c" + exts[0], "build", "dist"]      # "build"/"dist": regular files (python scripts) named like an excluded directory
         d1 = ctx.pick("dir1", dir_names)
         d2 = ctx.pick("dir2", ("sub", "build", "node_modules"))
         fname = ctx.pick("file", file_names)
+        if fname in (d2, d1):
+            ctx.assume(False)       # the same name cannot be a file and a directory in one place
         recursive = ctx.flag("recursive")
         ig = ctx.pick("ignore_pattern", ("none", "dir1/", "build/", "*.ts", "dir1/file", "dir1/**", "**/file", "**/dir1/", "**/dir2/", "wild-dir1/", "dir1/dir2/"))
         if ig not in ("none", "build/", "dir1/") and d1 not in ("pkg", "build", "buildx", "xbuild", "BUILD", "node_modules", ".hidden", "keep.py"):
@@ -80,7 +82,7 @@ def make_h(tier):
             for rel in files:
                 p = root / rel
                 p.parent.mkdir(parents=True, exist_ok=True)
-                p.write_text(BODY if not rel.endswith(".ts") else BODY_TS)
+                p.write_text(("#!/usr/bin/env python3\n" if "." not in Path(rel).name else "") + BODY if not rel.endswith(".ts") else BODY_TS)
             pattern = {"none": None, "dir1/": d1 + "/", "build/": "build/", "*.ts": "*.ts", "dir1/file": f"{d1}/{fname}",
                        "dir1/**": d1 + "/**", "**/file": "**/" + fname, "**/dir1/": "**/" + d1 + "/", "**/dir2/": "**/" + d2 + "/",
                        "wild-dir1/": d1[:-1] + "*/", "dir1/dir2/": d1 + "/" + d2 + "/"}[ig]
@@ -120,7 +122,7 @@ def make_h(tier):
                 continue
             if not recursive and len(parts) > 1 and not explicit:
                 continue
-            if Path(rel).suffix not in (".py", ".ts"):
+            if Path(rel).suffix not in (".py", ".ts") and "." in Path(rel).name:
                 continue
             want.add(rel)
         ctx.note("ignore_pattern", ig)
